@@ -2,11 +2,12 @@
 # try_mut_side.sh <worktree-with-change-applied> <check-id>...: run the quick checks against a scratch worktree of arroy
 # (a side copy of the simulator is built against that worktree; /repo and the committed evidence are not touched).
 W=$1; shift
-mkdir -p /tmp/sim-mut
-rsync -a --delete --exclude target ${SIM_SRC:-/verif/sim}/ /tmp/sim-mut/
-sed -i "s#arroy = { path = \"/repo\"#arroy = { path = \"$W\"#" /tmp/sim-mut/Cargo.toml
-(cd /tmp/sim-mut && CARGO_NET_OFFLINE=true cargo build --release --offline 2>&1 | grep -E "^error" -A8 | head -20)
+M=${SIM_MUT:-/tmp/sim-mut}; EV=${EV_MUT:-/tmp/ev-mut}
+mkdir -p $M
+rsync -a --delete --exclude target ${SIM_SRC:-/verif/sim}/ $M/
+sed -i "s#arroy = { path = \"/repo\"#arroy = { path = \"$W\"#" $M/Cargo.toml
+(cd $M && CARGO_NET_OFFLINE=true cargo build --release --offline 2>&1 | grep -E "^error" -A8 | head -20)
 for id in "$@"; do
   echo "=== $id"
-  (cd /verif && VERIF_EVIDENCE_DIR=/tmp/ev-mut timeout 3000 /tmp/sim-mut/target/release/arroy-sim check $id --tier quick 2>&1 | grep -E "^violation|^VIOLATION|^KNOWN|^property=|HARNESS" | cut -c1-420)
+  (cd /verif && VERIF_EVIDENCE_DIR=$EV timeout 3000 $M/target/release/arroy-sim check $id --tier quick 2>&1 | grep -E "^violation|^VIOLATION|^KNOWN|^property=|HARNESS" | cut -c1-420)
 done
